@@ -56,6 +56,9 @@ def cases(tier, seed):
     for r in range(400 if tier == "quick" else 3000):
         out.append({"kind": "deficient", "cls": "deficient:zero_column_negzero_interior", "c": "zero_column_negzero_interior", "idx": idx, "seed": seed, "maxd": maxd})
         idx += 1
+    for r in range(8 if tier == "quick" else 40):
+        out.append({"kind": "threads", "cls": "concurrent_callers", "idx": idx, "seed": seed})
+        idx += 1
     for r in range(4000 if tier == "quick" else 30000):
         out.append({"kind": "deplast", "cls": "dependent_last_column", "idx": idx, "seed": seed})
         idx += 1
@@ -67,7 +70,49 @@ def cases(tier, seed):
 
 
 def run_case(spec, ctx, R):
-    {"full": _full, "deficient": _deficient, "canonical": _canonical, "history": _history, "deplast": _deplast}[spec["kind"]](spec, ctx, R)
+    {"full": _full, "deficient": _deficient, "canonical": _canonical, "history": _history, "deplast": _deplast, "threads": _threads}[spec["kind"]](spec, ctx, R)
+
+
+def _threads(spec, ctx, R):
+    """Concurrent callers: four threads factor their own well-conditioned matrices of the SAME shape at the same time (LAPACK releases the
+    interpreter lock, the conversion loops are long); every result is judged by the property's clauses for its own input.  A factorisation
+    that parks intermediate data in storage shared between calls mixes two callers' matrices."""
+    import threading
+    rng = gen.rng_for(spec["seed"], "c06thr", spec["idx"])
+    m, n = [(16, 16), (12, 20), (20, 12), (8, 8)][spec["idx"] % 4]
+    mats = [[refq.randq(rng, m, n) for _ in range(5)] for _ in range(4)]
+    outs = [[None] * 5 for _ in range(4)]
+    barrier = threading.Barrier(4)
+
+    def worker(t):
+        barrier.wait()
+        for k in range(5):
+            try:
+                outs[t][k] = R.qsvd.qr_qua(mats[t][k])
+            except Exception as e:
+                outs[t][k] = e
+    ths = [threading.Thread(target=worker, args=(t,)) for t in range(4)]
+    for th in ths:
+        th.start()
+    for th in ths:
+        th.join()
+    eps = refq.EPS
+    for t in range(4):
+        for k in range(5):
+            A = mats[t][k]
+            o = outs[t][k]
+            ctx.distinct("threads", A)
+            if isinstance(o, Exception) or o is None:
+                ctx.check("unexpected_exception", False, site="qr_qua:four_threads", detail={"exception": repr(o)[:200]})
+                continue
+            Q, Rr = o
+            N = min(m, n)
+            ok = Q.shape == (m, N) and Rr.shape == (N, n)
+            ctx.check("shapes", ok, site="qr_qua:four_threads", tags=["gauss", "concurrent"])
+            if ok:
+                ctx.check("Q_orthonormal", refq.orth_err(Q), C * max(m, n) * eps * max(1.0, N ** 0.5), site="qr_qua:four_threads", tags=["gauss", "concurrent"])
+                ctx.check("reconstruction", refq.fro(refq.matmul(Q, Rr) - A), C * max(m, n) * eps * refq.fro(A), site="qr_qua:four_threads", tags=["gauss", "concurrent"])
+    ctx.hit("workload:four_concurrent_callers")
 
 
 def _deplast(spec, ctx, R):
